@@ -182,6 +182,7 @@ def check_program(env, prog, label, ndata, std):
         if has_sets and has_duplicates(d):
             env.count("outside-domain:duplicate items with a set-typed position")
             continue
+        model_abstained = False
         if std:
             try:
                 r = t.deser(d, cx)
@@ -189,8 +190,7 @@ def check_program(env, prog, label, ndata, std):
                     env.count("outside-domain:ill-formatted string at a format-only position")
                     continue
             except Unspecified as u:
-                if "multipleOf" in str(u):
-                    pass
+                model_abstained = True  # (the format exclusion is then decided from the real errors, below)
             except RecursionError:
                 continue
         real = harness.call(method, d)
@@ -207,6 +207,11 @@ def check_program(env, prog, label, ndata, std):
             env.violation({"kind": "exception", "exc": real.exc, "site": real.site}, {"program": prog.source, "datum": d, "observed": real.brief()})
             continue
         accepted = real.kind == "ok"
+        if model_abstained and not accepted and sv and real.kind == "verr" and all(harness.err_kind(e["err"]) in ("other", "format") for e in real.errors):
+            # the model abstained on this datum (e.g. hash-equal items of a set) and every real error is a parse failure of a
+            # standard-library type: same domain exclusion as above (format is an annotation)
+            env.count("outside-domain:ill-formatted string at a format-only position")
+            continue
         if accepted == sv:
             env.count("agree_valid" if sv else "agree_invalid")
             continue
